@@ -420,7 +420,16 @@ impl IncrementalEngine {
         for fact_type in fact_types {
             let facts_of_type = self.working_memory.get_by_type(&fact_type);
 
-            for rule in self.rules.iter() {
+            // Only rules that depend on this fact type are evaluated against its facts, exactly as
+            // in propagate_changes_for_type: on a fact of another type every field of the rule is
+            // missing, which makes a negated condition vacuously true
+            let affected_rules = self.dependencies.get_affected_rules(&fact_type);
+
+            for (rule_idx, rule) in self.rules.iter().enumerate() {
+                if !affected_rules.contains(&rule_idx) {
+                    continue;
+                }
+
                 // Skip if rule has no-loop and already fired
                 if rule.no_loop && self.agenda.has_fired(&rule.name) {
                     continue;
